@@ -128,6 +128,7 @@ type HarnessSpec struct {
 	Enumerate bool   `json:"enumerate"` // enumerate all models of known-finding obligations
 	Split     map[string][2]int64 `json:"split,omitempty"` // labels enumerated concretely (cube splitting): label -> [lo,hi]
 	Procs     int    `json:"procs,omitempty"` // worker processes for cubes
+	index     int    // position in the registry (addresses the entry for cube workers)
 	// known-finding handling: assertions whose message starts with "KF:" are expected-sat
 }
 
@@ -197,6 +198,7 @@ type runOpts struct {
 	cubeMod int // child mode: handle cubes with index % cubeMod == cubeRem
 	cubeRem int
 	self    []string // command line to re-invoke for cube workers
+	parallelEntries bool // run every registry entry in worker processes (entries concurrently)
 }
 
 func (w *World) runHarnessOnce(spec HarnessSpec, ro runOpts, fixed map[string]int64, cubeName string) (rep HarnessReport, exOut *Exec) {
@@ -361,8 +363,13 @@ func (w *World) runHarnessOnce(spec HarnessSpec, ro runOpts, fixed map[string]in
 // runHarness runs a harness, possibly split into cubes over some of its
 // finite-domain inputs (each cube is a separate symbolic execution and a
 // separate set of solver queries; together the cubes cover the whole domain).
+var procSlots = make(chan struct{}, 16)
+
 func (w *World) runHarness(spec HarnessSpec, ro runOpts) (HarnessReport, *Exec) {
 	if len(spec.Split) == 0 {
+		if ro.cubeMod == 0 && len(ro.self) > 0 && ro.parallelEntries {
+			return w.runCubesParallel(spec, ro, 1, 1)
+		}
 		return w.runHarnessOnce(spec, ro, nil, "")
 	}
 	var labels []string
@@ -396,7 +403,7 @@ func (w *World) runHarness(spec HarnessSpec, ro runOpts) (HarnessReport, *Exec) 
 	if procs <= 0 {
 		procs = 1
 	}
-	if ro.cubeMod == 0 && procs > 1 && len(ro.self) > 0 {
+	if ro.cubeMod == 0 && (procs > 1 || ro.parallelEntries) && len(ro.self) > 0 {
 		return w.runCubesParallel(spec, ro, procs, len(cubes))
 	}
 	var total HarnessReport
@@ -442,9 +449,11 @@ func (w *World) runCubesParallel(spec HarnessSpec, ro runOpts, procs, ncubes int
 	defer os.RemoveAll(tmpdir)
 	for r := 0; r < procs; r++ {
 		go func(r int) {
+			procSlots <- struct{}{}
+			defer func() { <-procSlots }()
 			out := filepath.Join(tmpdir, fmt.Sprintf("cube-%d.json", r))
 			args := append([]string{}, ro.self[1:]...)
-			args = append(args, "-only", "^"+spec.Name+"$", "-cubemod", fmt.Sprint(procs), "-cuberem", fmt.Sprint(r), "-out", out, "-quiet")
+			args = append(args, "-specindex", fmt.Sprint(spec.index), "-cubemod", fmt.Sprint(procs), "-cuberem", fmt.Sprint(r), "-out", out, "-quiet")
 			cmd := exec.Command(ro.self[0], args...)
 			cmd.Stderr = os.Stderr
 			err := cmd.Run()
@@ -597,6 +606,9 @@ func loadSpecs(path string) []HarnessSpec {
 			specs = append(specs, gs...)
 		}
 	}
+	for i := range specs {
+		specs[i].index = i
+	}
 	return specs
 }
 
@@ -617,6 +629,7 @@ func cmdRun(args []string) {
 	cubeMod := fs.Int("cubemod", 0, "(internal) cube worker modulus")
 	cubeRem := fs.Int("cuberem", 0, "(internal) cube worker remainder")
 	quiet := fs.Bool("quiet", false, "no summary output")
+	specIndex := fs.Int("specindex", -1, "(internal) run only the registry entry with this index")
 	fs.Parse(args)
 
 	t0 := time.Now()
@@ -643,6 +656,14 @@ func cmdRun(args []string) {
 	}
 	var reports []HarnessReport
 	for _, s := range specs {
+		if *specIndex >= 0 {
+			if s.index != *specIndex {
+				continue
+			}
+			rep, _ := w.runHarness(s, ro)
+			reports = append(reports, rep)
+			continue
+		}
 		if *prop != "" {
 			found := false
 			for _, p := range s.Prop {
